@@ -301,7 +301,15 @@ def _len_field_from_layout(F, f, ln):
     return True, 'len = B / size_of::<i32>() and the allocation layout has size B (same expression, single writer %s)' % g.key
 
 
-@rule('GUARD-FIELD-WRITERS', ['C15'], configs=('def',), floor=2, thorough_configs=('nostd-opt',))
+def _strip_casts(e):
+    while isinstance(e, tuple) and e[0] == 'cast':
+        e = e[2]
+    if isinstance(e, tuple) and e[0] == 'local':
+        return ('local', e[1])
+    return expr_str(e) if isinstance(e, tuple) else e
+
+
+@rule('GUARD-FIELD-WRITERS', ['C15', 'C14'], configs=('def',), floor=2, thorough_configs=('nostd-opt',))
 def guard_field_writers(ctx):
     """The bounds the unsafe guards rely on are fixed at construction: the u16-read limit field is
     written only in the constructor as `buf_size - size_of::<u16>()` of the buffer allocated there,
@@ -364,7 +372,9 @@ def guard_field_writers(ctx):
                             kval = {'u8': 1, 'u16': 2, 'u32': 4, 'u64': 8, 'usize': 8}.get(targ)
                         if kval is not None and kval >= 2 and fe:
                             alloc_n = fe[0][2][-1] if fe[0][1].endswith('from_elem') else fe[0][2][0]
-                            if _same(alloc_n, size_e) or expr_str(size_e) in expr_str(alloc_n) or expr_str(alloc_n) in expr_str(size_e):
+                            # exactly the allocated length: a smaller base (`buf_size - 1`) is still safe but makes the clamp bite at the last
+                            # position at which a whole value can be read, where the checked twin compares the right pair (C14)
+                            if _same(alloc_n, size_e) or _strip_casts(alloc_n) == _strip_casts(size_e):
                                 ok = True
                             else:
                                 why = 'bound derives from %s but the buffer is allocated with %s' % (expr_str(size_e)[:40], expr_str(alloc_n)[:40])
